@@ -241,6 +241,10 @@ package json
 // It is defined as the completeness output of Parse; what completeness implies is stated by
 // the C09 clauses of the scanner functions.
 //@ ghostfun parseComplete(bytes) bool
+// startsContainer(b): the first non-space byte of b opens an object or array. Opaque to callers
+// (they do not `use` container_def); Parse is proved to report exactly it through firstToken.
+//@ ghostfun startsContainer(bytes) bool
+//@ axiom container_def(b bytes): startsContainer(b) == (wsLen(b) < len(b) && (b[wsLen(b)] == '{' || b[wsLen(b)] == '['))
 
 //@ func json.Parse
 //@   ghost entry: jdepth = 0
@@ -249,6 +253,8 @@ package json
 //@   ensures [C08_J1] parsed > 0 ==> inspected == parsed
 //@   defines (parsed == len(raw) && len(raw) > 0) == parseComplete(raw)
 //@   ensures [C08_G_tok] wsLen(raw) < len(raw) ==> firstToken == tokOf(raw[wsLen(raw)])
+//@   ensures [C13_G_tok_container] (firstToken == TokArray || firstToken == TokObject) == startsContainer(raw)
+//@   uses container_def
 //@   ensures [C08C13_G_tok_blank] wsLen(raw) >= len(raw) ==> firstToken == TokInvalid
 //@   ensures [C08_G_none] queryType == "json" && wsLen(raw) < len(raw) ==> querySatisfied
 //@   ensures [C08C09_G_parse] parsed == pos0(valLen(raw, 0, maxRecursion))
